@@ -1,4 +1,5 @@
 import WfModel.Runner
+import WfModel.Context
 import Driver.Util
 /-! Line protocol for the engine reducer model (token streams, see harness/enc.py). -/
 open Engine
@@ -357,6 +358,31 @@ def step (d : DState) (line : String) : DState × String :=
         let r2 := r1.step d.cfg p .drain
         let red := reduce d.cfg p t r1.st r1.now
         ({ d with run := r2 }, sTick t ++ " @@ " ++ sRunner pre ++ " => " ++ sResult d.cfg red)
+    | _ => (d, "bad-op")
+  -- step side (InternalContext): collect_events / wait_for_event against a snapshot
+  | "CE" :: ts =>
+    match (do let ex ← counted nat; let b ← nat; let c ← counted ev; let e ← ev; pure (ex, b, c, e)) ts with
+    | some ((ex, b, c, e), []) =>
+      match collectEvents ex b c e with
+      | .empty => (d, "empty")
+      | .pending none => (d, "pending _")
+      | .pending (some r) => (d, "pending " ++ sTick.sRes r)
+      | .complete evs => (d, "complete " ++ sList sEv evs)
+    | _ => (d, "bad-op")
+  | "CR" :: ts =>
+    match (do let ex ← counted nat; let es ← counted ev; pure (ex, es)) ts with
+    | some ((ex, es), []) =>
+      let h := es.foldl (collectRound ex) {}
+      (d, s!"B {sList sEv h.buffer} R {sList (sList sEv) h.returned} D {sList sEv h.dropped}")
+    | _ => (d, "bad-op")
+  | "WE" :: ts =>
+    match (do let ws ← counted waiter; let wid ← nat; let ty ← nat; let we ← opt ev; let rq ← optNat
+              let tmo ← optNat; pure (ws, wid, ty, we, rq, tmo)) ts with
+    | some ((ws, wid, ty, we, rq, tmo), []) =>
+      match waitForEvent ws wid ty we rq tmo with
+      | .timeout => (d, "timeout " ++ sList sTick.sRes (WaitOut.results wid .timeout))
+      | .waiting a => (d, "waiting " ++ sTick.sRes a)
+      | .got e => (d, "got " ++ sEv e ++ " " ++ sList sTick.sRes (WaitOut.results wid (.got e)))
     | _ => (d, "bad-op")
   | ["rend"] => (d, sOutcome d.run.outcome ++ " ;; " ++ sList sPub d.run.stream)
   | ["rstream"] => (d, sList sPub d.run.stream)
